@@ -20,3 +20,11 @@ Proof. apply l_attrs_roundtrip; apply sample_ok. Qed.
 
 Example default_dialect_ok : dialect_ok default_dialect.
 Proof. unfold dialect_ok, default_dialect; cbn. repeat split; try (apply ascii_ok; reflexivity). repeat (apply Forall_cons; [apply ascii_ok; reflexivity|]). apply Forall_nil. Qed.
+
+(* numeric_sort: exon_number 10, 9, 2.5, -1 and 9 again - all decimals; the result is -1, 2.5, 9, 10 *)
+From GV Require Import Model.Bins Model.DB Model.Import Model.Attrs.
+Example C17_numeric_inhabited :
+  let vs : list str := [[49;48]; [57]; [50;46;53]; [45;49]; [57]]%N in
+  (exists l, all_dec (as_set vs) = Some l) /\ sort_values true vs = Ok [[45;49]; [50;46;53]; [57]; [49;48]]%N /\
+  sort_values false vs = Ok [[45;49]; [49;48]; [50;46;53]; [57]]%N.
+Proof. vm_compute. split; [eexists; reflexivity|split; reflexivity]. Qed.
